@@ -1084,3 +1084,106 @@ func ruleLDR13(c *Ctx) {
 		c.Fail("BuildRuleFromResource / lexer input", p.Pos(fn.Pos()), "no antlr.NewInputStream call (anchor lost)")
 	}
 }
+
+func init() {
+	register("LDR-14", "a rule entry reaches the knowledge base only with its when and then scope", 1, ruleLDR14)
+}
+
+// LDR-14: after a syntax error the parser's recovery can still leave a rule context without body. An entry with a nil
+// scope in the knowledge base makes every traversal that assumes both scopes (GetSnapshot, and with it cloning, the
+// self-check and cataloguing) dereference nil: outside any recover barrier that is a crash of the loader or of the
+// next NewKnowledgeBaseInstance.
+func ruleLDR14(c *Ctx) {
+	p := c.P
+	fn := p.Method("antlr", "GruleV3ParserListener", "ExitRuleEntry")
+	if fn == nil {
+		c.AnchorLost("ExitRuleEntry")
+		return
+	}
+	whenF, thenF := p.Field("ast", "RuleEntry", "WhenScope"), p.Field("ast", "RuleEntry", "ThenScope")
+	n := 0
+	for _, ci := range callsIn(fn) {
+		if !ci.Common().IsInvoke() || ci.Common().Method.Name() != "ReceiveRuleEntry" {
+			continue
+		}
+		n++
+		entry := unspill(ci.Common().Args[0])
+		for _, f := range []*types.Var{whenF, thenF} {
+			ff := f
+			ok := edgesDominate(fn, ci.(ssa.Instruction), func(b *ssa.BasicBlock, si int) bool {
+				iff, isIf := b.Instrs[len(b.Instrs)-1].(*ssa.If)
+				if !isIf {
+					return false
+				}
+				kind, sNil, okc := condOn(iff.Cond, func(v ssa.Value) bool {
+					lf, lb := fieldLoad(v)
+					return lf == ff && unspill(lb) == entry
+				})
+				return okc && kind == "nil" && si == 1-sNil
+			})
+			c.Check(ok, "ExitRuleEntry / entry handed over only with its "+f.Name(), p.InstrPos(ci.(ssa.Instruction)), "ReceiveRuleEntry dominated by "+f.Name()+" != nil", "a rule entry without "+f.Name()+" (text ending right after the rule header, e.g. `rule r \"d\"`) is added to the knowledge base: RuleEntry.GetSnapshot dereferences the missing scope, so the builder's clean-up, the next NewKnowledgeBaseInstance or a store panics outside any recover barrier")
+		}
+	}
+	if n == 0 {
+		c.Fail("ExitRuleEntry / hands the entry to its receiver", p.Pos(fn.Pos()), "no ReceiveRuleEntry call (anchor lost)")
+	}
+}
+
+func init() {
+	register("LDR-15", "the binary loader runs no recursive traversal over the graph it rebuilds", 1, ruleLDR15)
+}
+
+// LDR-15: the ids in a stream may form any graph, cycles included; the rebuilt nodes are only as acyclic as the stream
+// says. A recursive walk over them (GetSnapshot, Clone, MakeCatalog, Evaluate ...) inside the loader does not terminate
+// on a cyclic stream, and a stack overflow is fatal: the loader's recover() cannot contain it.
+func ruleLDR15(c *Ctx) {
+	p := c.P
+	entry := p.Method("ast", "KnowledgeLibrary", "LoadKnowledgeBaseFromReader")
+	if entry == nil {
+		c.AnchorLost("LoadKnowledgeBaseFromReader")
+		return
+	}
+	reach := c.reachableModuleFuncs([]*ssa.Function{entry}, false)
+	g := c.P.CallGraph()
+	// a function is recursive when it can reach itself through module functions
+	var bad []string
+	for fn := range reach {
+		if fn.Blocks == nil || generatedExempt(fn) {
+			continue
+		}
+		seen := map[*ssa.Function]bool{}
+		stack := []*ssa.Function{}
+		if n := g.Nodes[fn]; n != nil {
+			for _, e := range n.Out {
+				if e.Callee.Func != nil && fnInModule(e.Callee.Func) {
+					stack = append(stack, e.Callee.Func)
+				}
+			}
+		}
+		rec := false
+		for len(stack) > 0 && !rec {
+			f := stack[len(stack)-1]
+			stack = stack[:len(stack)-1]
+			if f == fn {
+				rec = true
+				break
+			}
+			if seen[f] || !reach[f] {
+				continue
+			}
+			seen[f] = true
+			if n := g.Nodes[f]; n != nil {
+				for _, e := range n.Out {
+					if e.Callee.Func != nil && fnInModule(e.Callee.Func) {
+						stack = append(stack, e.Callee.Func)
+					}
+				}
+			}
+		}
+		if rec {
+			bad = append(bad, fnName(fn))
+		}
+	}
+	sort.Strings(bad)
+	c.Check(len(bad) == 0, "LoadKnowledgeBaseFromReader / reaches no recursive function", p.Pos(entry.Pos()), fmt.Sprintf("%d module functions reachable, none on a call cycle", len(reach)), "recursive functions are reachable while a stream is loaded ("+strings.Join(bad, ", ")+"): on a well-formed stream whose ids close a cycle the recursion never ends and the stack overflow aborts the process")
+}
